@@ -1,11 +1,13 @@
 /-
 C43 — model of
-  * felix/calc/l3_route_resolver.go  (L3RouteResolver + RouteTrie + nodeRoutes), IPv4 slice
+  * felix/calc/l3_route_resolver.go  (L3RouteResolver + RouteTrie + nodeRoutes), both IP families
   * felix/dataplane/linux/route_mgr.go (routeManager) with the three tunnel
     functions of vxlan_mgr.go / ipip_mgr.go / noencap_mgr.go.
 
 Conventions
-  * an IPv4 address is a `Nat` < 2^32; `0` is Go's `emptyV4Addr` / the empty string;
+  * an address is a `Nat` (< 2^32 for IPv4, < 2^128 for IPv6); `0` is Go's `emptyV4Addr` /
+    `emptyV6Addr` / the empty string; a CIDR carries its family (`v6`), the two tries of the Go
+    code (`v4T`, `v6T`) are one association list keyed by family-tagged CIDRs;
   * a node name is a `Nat` (the harness prints it with a fixed width, so that Go's
     string order on names is the order on `Nat`); `RouteUpdate.dstNode = none` is "";
   * Go maps / sets are association lists without duplicate keys; everything that
@@ -14,7 +16,7 @@ Conventions
     the trie's entries at `c`'s ancestors (`ancKey c l`, l < len) followed by `c`'s own entry,
     and is empty when `c` itself is not in the trie (felix/ip/trie.go lookupPath).  The radix
     structure of the trie is C36's business, not modelled here.
-  * IPv6, `Spec.Addresses`, AWS subnets are not modelled.
+  * `Spec.Addresses`, AWS subnets, IPv6 workload endpoint addresses are not modelled.
 Core Lean only (linked into the driver executable).
 -/
 namespace CalicoVerif.C43
@@ -24,18 +26,31 @@ namespace CalicoVerif.C43
 structure Cidr where
   addr : Nat
   len : Nat
+  v6 : Bool
 deriving DecidableEq, Repr, Inhabited
 
-/-- the top `len` bits of a 32-bit address (as a number). -/
-def topBits (a len : Nat) : Nat := a / 2 ^ (32 - len)
+/-- address width of the CIDR's family. -/
+def Cidr.width (c : Cidr) : Nat := if c.v6 then 128 else 32
 
-/-- `V4CIDR.ContainsV4` : common prefix of the two addresses is at least `len` bits. -/
-def Cidr.containsAddr (c : Cidr) (a : Nat) : Bool := topBits a c.len == topBits c.addr c.len
+/-- the top `len` bits of a `w`-bit address (as a number). -/
+def topBits (w a len : Nat) : Nat := a / 2 ^ (w - len)
 
-/-- `c` is a (non-strict) prefix of `d`: the trie ancestor relation. -/
-def Cidr.covers (c d : Cidr) : Bool := c.len ≤ d.len && c.containsAddr d.addr
+/-- `V4CIDR.ContainsV4` / `V6CIDR.ContainsV6`: common prefix of the two addresses is at least `len` bits. -/
+def Cidr.containsAddr (c : Cidr) (a : Nat) : Bool := topBits c.width a c.len == topBits c.width c.addr c.len
 
-def Cidr.host (a : Nat) : Cidr := ⟨a, 32⟩
+/-- `c` is a (non-strict) prefix of `d` in the same family: the trie ancestor relation. -/
+def Cidr.covers (c d : Cidr) : Bool := c.v6 == d.v6 && c.len ≤ d.len && c.containsAddr d.addr
+
+def Cidr.host (a : Nat) : Cidr := ⟨a, 32, false⟩
+def Cidr.host6 (a : Nat) : Cidr := ⟨a, 128, true⟩
+/-- the single-address CIDR of a family. -/
+def Cidr.hostOf (v6 : Bool) (a : Nat) : Cidr := ⟨a, if v6 then 128 else 32, v6⟩
+
+/-- Go's zero values `V4CIDR{}` / `V6CIDR{}`. -/
+def Cidr.zero (v6 : Bool) : Cidr := ⟨0, 0, v6⟩
+
+/-- `emptyV4Addr.AsCIDR()` / `emptyV6Addr.AsCIDR()`: never sent. -/
+def zeroHost (c : Cidr) : Bool := c == Cidr.host 0 || c == Cidr.host6 0
 
 /-! ## Association lists -/
 
@@ -99,11 +114,18 @@ def RouteInfo.isZero (r : RouteInfo) : Bool := !r.wasSent && !r.isValidRoute
 
 structure NodeInfo where
   v4Addr : Nat
-  cidr : Cidr          -- V4CIDR; ⟨0,0⟩ is the Go zero value
+  cidr : Cidr          -- V4CIDR; `Cidr.zero false` is the Go zero value
   ipip : Nat
   vxlan : Nat
   wg : Nat
+  v6Addr : Nat := 0
+  cidr6 : Cidr := Cidr.zero true   -- V6CIDR
+  vxlan6 : Nat := 0
+  wg6 : Nat := 0
 deriving DecidableEq, Repr
+
+def NodeInfo.addrOf (i : NodeInfo) (v6 : Bool) : Nat := if v6 then i.v6Addr else i.v4Addr
+def NodeInfo.cidrOf (i : NodeInfo) (v6 : Bool) : Cidr := if v6 then i.cidr6 else i.cidr
 
 /-- `proto.RouteUpdate` (the fields the resolver fills). -/
 structure RouteUpdate where
@@ -155,9 +177,9 @@ def St.updateCIDR (s : St) (c : Cidr) (f : RouteInfo → RouteInfo) : St × Bool
     if ri'.isZero then ({ s with trie := adel s.trie c }, true)
     else ({ s with trie := aset s.trie c ri' }, true)
 
-/-- `markChildrenDirty`: NB the Go code tests address containment only. -/
+/-- `markChildrenDirty`: NB the Go code tests address containment only (within the family's trie). -/
 def St.markChildrenDirty (s : St) (c : Cidr) : St :=
-  (s.trie.filter (fun e => c.containsAddr e.1.addr)).foldl (fun s e => s.markDirty e.1) s
+  (s.trie.filter (fun e => e.1.v6 == c.v6 && c.containsAddr e.1.addr)).foldl (fun s e => s.markDirty e.1) s
 
 def St.updatePool (s : St) (c : Cidr) (p : Pool) : St :=
   let (s, ch) := s.updateCIDR c (fun ri => { ri with pool := some p })
@@ -237,7 +259,7 @@ def St.markAllNodeRoutesDirty (s : St) (n : Nat) : St :=
 /-! ## flush -/
 
 /-- the ancestor of `c` at prefix length `l` (the trie node on `c`'s path at depth `l`). -/
-def ancKey (c : Cidr) (l : Nat) : Cidr := ⟨(c.addr / 2 ^ (32 - l)) * 2 ^ (32 - l), l⟩
+def ancKey (c : Cidr) (l : Nat) : Cidr := ⟨(c.addr / 2 ^ (c.width - l)) * 2 ^ (c.width - l), l, c.v6⟩
 
 /-- a RouteInfo without its bookkeeping flag. -/
 def strip (ri : RouteInfo) : RouteInfo := { ri with wasSent := false }
@@ -313,17 +335,17 @@ def accRefs (me : Nat) (a : Acc) (ri : RouteInfo) : Acc :=
 def accStep (me : Nat) (c : Cidr) (a : Acc) (e : Cidr × RouteInfo) : Acc :=
   accRefs me (accHost me (accBlock me c (accPool a e.2) e) e.2) e.2
 
-/-- "the node `o` is in the subnet of the local node whose info is `l`": the local V4CIDR is known,
-is not the zero value, and contains `o`'s address. -/
-def inSub (l : Option NodeInfo) (o : NodeInfo) : Bool :=
+/-- "the node `o` is in the subnet of the local node whose info is `l`" for one family: the local
+V4CIDR / V6CIDR is known, is not the zero value, and contains `o`'s address of that family. -/
+def inSub (v6 : Bool) (l : Option NodeInfo) (o : NodeInfo) : Bool :=
   match l with
-  | some l => l.cidr != ⟨0, 0⟩ && l.cidr.containsAddr o.v4Addr
+  | some l => l.cidrOf v6 != Cidr.zero v6 && (l.cidrOf v6).containsAddr (o.addrOf v6)
   | none => false
 
-/-- `nodeInOurSubnet(name, 4)`. -/
-def nodeInOurSubnet (me : Nat) (nodes : List (Nat × NodeInfo)) (n : Nat) : Bool :=
+/-- `nodeInOurSubnet(name, ipFamily)`. -/
+def nodeInOurSubnet (v6 : Bool) (me : Nat) (nodes : List (Nat × NodeInfo)) (n : Nat) : Bool :=
   match aget nodes n with
-  | some o => inSub (aget nodes me) o
+  | some o => inSub v6 (aget nodes me) o
   | none => false
 
 /-- The route `flush` computes for `c` from its lookup path and the node table. -/
@@ -337,11 +359,11 @@ def routeOfPath (me : Nat) (nodes : List (Nat × NodeInfo)) (c : Cidr) (path : L
     | none => false
   let ip := match a.dstNode with
     | some n => match aget nodes n with
-      | some ni => ni.v4Addr
+      | some ni => ni.addrOf c.v6
       | none => 0
     | none => 0
   let ss := a.cross && known && (match a.dstNode with
-    | some n => nodeInOurSubnet me nodes n
+    | some n => nodeInOurSubnet c.v6 me nodes n
     | none => false)
   { dst := c, types := types, poolType := a.poolType, dstNode := a.dstNode, dstNodeIp := ip,
     sameSubnet := ss, natOutgoing := a.nat, localWorkload := a.localWorkload, borrowed := a.borrowed,
@@ -357,11 +379,12 @@ def St.flushOne (s : St) (c : Cidr) : St × List Event :=
   | some last =>
     if last.wasSent && !last.isValidRoute then
       (s.setRouteSent c false, [Event.remove c])
-    else if c = Cidr.host 0 then (s, [])
+    else if zeroHost c then (s, [])
     else
       (s.setRouteSent c true, [Event.update (s.route c)])
 
-def cidrLe (a b : Cidr) : Bool := a.addr < b.addr || (a.addr == b.addr && a.len ≤ b.len)
+def cidrLe (a b : Cidr) : Bool :=
+  (!a.v6 && b.v6) || (a.v6 == b.v6 && (a.addr < b.addr || (a.addr == b.addr && a.len ≤ b.len)))
 
 def insertCidr (c : Cidr) : List Cidr → List Cidr
   | [] => [c]
@@ -401,7 +424,7 @@ def routesFromBlock (c : Cidr) (aff : Option Nat) (allocs : List (Nat × Option 
   let m := allocs.foldl (fun (m : List (Cidr × Nat)) a =>
     match a.2 with
     | none => m                                   -- attribute without a node: skipped with a warning
-    | some h => if aff == some h then m else aset m (Cidr.host (c.addr + a.1)) h) []
+    | some h => if aff == some h then m else aset m (Cidr.hostOf c.v6 (c.addr + a.1)) h) []
   match aff with
   | some h => aset m c h
   | none => m
@@ -460,31 +483,41 @@ def visitNode (ri : RouteInfo) : Option Nat :=
 def addTunnelRefs (s : St) (n : Nat) (i : NodeInfo) : St :=
   let s := if i.ipip != 0 then s.addRef (Cidr.host i.ipip) n refIPIP else s
   let s := if i.vxlan != 0 then s.addRef (Cidr.host i.vxlan) n refVXLAN else s
-  if i.wg != 0 then s.addRef (Cidr.host i.wg) n refWireguard else s
+  let s := if i.vxlan6 != 0 then s.addRef (Cidr.host6 i.vxlan6) n refVXLAN else s
+  let s := if i.wg != 0 then s.addRef (Cidr.host i.wg) n refWireguard else s
+  if i.wg6 != 0 then s.addRef (Cidr.host6 i.wg6) n refWireguard else s
 
 def removeTunnelRefs (s : St) (n : Nat) (i : NodeInfo) : St :=
   let s := if i.ipip != 0 then s.removeRef (Cidr.host i.ipip) n refIPIP else s
   let s := if i.vxlan != 0 then s.removeRef (Cidr.host i.vxlan) n refVXLAN else s
-  if i.wg != 0 then s.removeRef (Cidr.host i.wg) n refWireguard else s
+  let s := if i.vxlan6 != 0 then s.removeRef (Cidr.host6 i.vxlan6) n refVXLAN else s
+  let s := if i.wg != 0 then s.removeRef (Cidr.host i.wg) n refWireguard else s
+  if i.wg6 != 0 then s.removeRef (Cidr.host6 i.wg6) n refWireguard else s
 
 /-- the test inside the `visitAllRoutes` callbacks of `onNodeUpdate`: does the same-subnet status
 of the node this trie entry is attributed to flip when the local node goes from `old` to `new`? -/
-def subnetFlip (s : St) (old new : Option NodeInfo) (ri : RouteInfo) : Bool :=
+def subnetFlip (v6 : Bool) (s : St) (old new : Option NodeInfo) (ri : RouteInfo) : Bool :=
   match visitNode ri with
   | none => false
   | some other =>
     if other == s.me then false
     else match aget s.nodes other with
       | none => false
-      | some oi => inSub old oi != inSub new oi
+      | some oi => inSub v6 old oi != inSub v6 new oi
 
-def cidrOf (i : Option NodeInfo) : Cidr := match i with | some o => o.cidr | none => ⟨0, 0⟩
+def cidrOf (v6 : Bool) (i : Option NodeInfo) : Cidr := match i with | some o => o.cidrOf v6 | none => Cidr.zero v6
 
-/-- `onNodeUpdate`, part 1: when OUR cidr changes, re-evaluate the same-subnet status of every route. -/
-def St.nodeVisit (s : St) (n : Nat) (old new : Option NodeInfo) : St :=
-  if n == s.me && cidrOf old != cidrOf new then
-    (s.trie.filter (fun e => subnetFlip s old new e.2)).foldl (fun s' e => s'.markDirty e.1) s
+/-- one of the two `visitAllRoutes` passes of `onNodeUpdate` (over the family's trie); `s0` is the
+state the callbacks read (trie and node table before the update). -/
+def St.nodeVisitFam (s : St) (v6 : Bool) (s0 : St) (n : Nat) (old new : Option NodeInfo) : St :=
+  if n == s0.me && cidrOf v6 old != cidrOf v6 new then
+    (s0.trie.filter (fun e => e.1.v6 == v6 && subnetFlip v6 s0 old new e.2)).foldl (fun s' e => s'.markDirty e.1) s
   else s
+
+/-- `onNodeUpdate`, part 1: when OUR IPv4 cidr changes, re-evaluate the same-subnet status of every
+IPv4 route; and — independently — the same for IPv6. -/
+def St.nodeVisit (s : St) (n : Nat) (old new : Option NodeInfo) : St :=
+  (s.nodeVisitFam false s n old new).nodeVisitFam true s n old new
 
 /-- part 2: tunnel address refs, adds before removes. -/
 def St.nodeRefs (s : St) (n : Nat) (old new : Option NodeInfo) : St :=
@@ -496,12 +529,14 @@ def St.nodeHosts (s : St) (n : Nat) (old new : Option NodeInfo) : St :=
   let s := match old with
     | some o =>
       let s := { s with nodes := adel s.nodes n }
-      if o.v4Addr != 0 then s.removeHost (Cidr.host o.v4Addr) n else s
+      let s := if o.v4Addr != 0 then s.removeHost (Cidr.host o.v4Addr) n else s
+      if o.v6Addr != 0 then s.removeHost (Cidr.host6 o.v6Addr) n else s
     | none => s
   match new with
     | some i =>
       let s := { s with nodes := aset s.nodes n i }
-      if i.v4Addr != 0 then s.addHost (Cidr.host i.v4Addr) n else s
+      let s := if i.v4Addr != 0 then s.addHost (Cidr.host i.v4Addr) n else s
+      if i.v6Addr != 0 then s.addHost (Cidr.host6 i.v6Addr) n else s
     | none => s
 
 /-- `onNodeUpdate`. -/
@@ -555,7 +590,7 @@ def isBorrowedRoute (r : RouteUpdate) (pt : Nat) : Bool :=
 
 /-- `routeIsLocalBlock`. -/
 def routeIsLocalBlock (pt : Nat) (r : RouteUpdate) : Bool :=
-  isType r tLocalWorkload && r.poolType == pt && !r.localWorkload && r.dst.len != 32
+  isType r tLocalWorkload && r.poolType == pt && !r.localWorkload && r.dst.len != r.dst.width
 
 /-- route classes of felix/routetable/defs.go and the device a class is programmed on. -/
 abbrev ifEmpty : Nat := 0    -- ""
